@@ -1,16 +1,13 @@
 (** C05, part C: resources, item declarations, [use], interface bodies. *)
 From Coq Require Import String.
 From Coq Require Import ZArith ZifyBool ZifyN Lia.
-From WacV Require Import Str StrLit Types CheckerEq CheckerValue CheckerProofs Decls WitDenote DeclsProofsA DeclsProofsB.
+From WacV Require Import Str StrLit Types CheckerEq CheckerValue CheckerProofs Decls WitDenote DeclsProofsA DeclsProofsB DeclsProofsF.
 From WacV Require Ast.
 Set Warnings "-unused-intro-pattern".
 
 (** the state of a body against the denotation's body *)
 Definition Rloc (l : loc) (b : body) : Prop :=
   Renv (l_types l) (l_cur l) (b_env b) /\ Rexts (l_types l) (l_exts l) (b_items b).
-
-Lemma register_ok sc n x sc' : register sc n x = DOk sc' -> has n sc = false /\ sc' = (n, x) :: sc.
-Proof. unfold register. destruct (has n sc); [discriminate|]. intro H. injection H as <-. auto. Qed.
 
 (** * Resources *)
 Lemma methods_go_sim : forall ms cur rname r names exts t e items exts' t',
@@ -28,16 +25,18 @@ Proof.
                             den_member e rname m = Some (en, XFunc ft) /\ uf t1 f ft).
     { destruct m as [docs sp ps|docs i is_static fty].
       - destruct (mem [] names) eqn:Em; [discriminate|]. dinv E1 as [[f0 t0] [E0 E1]]. injection E1 as <- <- <- <-.
-        destruct (func_type_sim cur t e _ _ FConstructor (Some r) rname f0 t0 He) as [X1 [ft [D1 U1]]]; [|exact E0|].
+        destruct (func_type_sim cur t e ps Ast.RLEmpty FConstructor (Some r) rname f0 t0 He) as [X1 [ft [D1 U1]]]; [|exact E0|].
         { intros r0 Hr0. now injection Hr0 as <-. }
-        exists ft. cbn [member_key den_member kmap] in *. rewrite D1. cbn [option_map]. rewrite method_name_member. auto.
+        exists ft. cbn [member_key den_member kmap] in *. rewrite D1. cbn [option_map].
+        split; [exact Em|]. split; [reflexivity|]. split; [exact X1|]. split; [reflexivity | exact U1].
       - change (name_of i) with (nm i) in E1. destruct (mem (nm i) names) eqn:Em; [discriminate|].
         dinv E1 as [[f0 t0] [E0 E1]]. injection E1 as <- <- <- <-.
-        destruct (func_type_sim cur t e _ _ _ (Some r) rname f0 t0 He) as [X1 [ft [D1 U1]]]; [|exact E0|].
+        destruct (func_type_sim cur t e (Ast.ft_params fty) (Ast.ft_results fty) (if is_static then FStatic else FMethod) (Some r) rname f0 t0 He) as [X1 [ft [D1 U1]]]; [|exact E0|].
         { intros r0 Hr0. now injection Hr0 as <-. }
-        exists ft. cbn [member_key den_member]. cbv zeta. rewrite method_name_member.
+        exists ft. cbn [member_key den_member]. cbv zeta.
         replace (kmap (if is_static then FStatic else FMethod)) with (if is_static then MStatic else MMethod) in * by (destruct is_static; reflexivity).
-        rewrite D1. cbn [option_map]. auto. }
+        rewrite D1. cbn [option_map].
+        split; [exact Em|]. split; [reflexivity|]. split; [exact X1|]. split; [destruct is_static; reflexivity | exact U1]. }
     destruct Hm as [ft [Em [-> [X1 [Dm U1]]]]].
     assert (Hx1 : Rexts t1 (exts ++ [(en, KFunc f)]) (items ++ [(en, XFunc ft)])).
     { apply R2_snoc; [eapply Rexts_aext; eassumption | now apply uk_func]. }
@@ -54,17 +53,7 @@ Proof.
       destruct (Hk' _ Hin) as [_ Hne]. rewrite seqb_refl in Hne. discriminate.
 Qed.
 
-Lemma resource_decl_eq l i ms :
-  resource_decl l i ms =
-  (do cur1 <- register (l_cur l) (nm i) (TResource (snd (add_resource (l_types l) (mkres (nm i) None)))) ;;
-   if has (nm i) (l_exts l) then DPanic 7 else
-   do (exts, t2) <- methods_go cur1 (nm i) (snd (add_resource (l_types l) (mkres (nm i) None))) []
-                      (l_exts l ++ [(nm i, KType (TResource (snd (add_resource (l_types l) (mkres (nm i) None)))))])
-                      (fst (add_resource (l_types l) (mkres (nm i) None))) ms ;;
-   DOk (mkloc cur1 (l_uses l) exts t2)).
-Proof. reflexivity. Qed.
-
-Lemma fresh_true {A B} (P : A -> B -> Prop) (Q : kind -> tree -> Prop) n (cur : list (str * A)) env exts items :
+Lemma fresh_true {A} (P : A -> sem -> Prop) (Q : kind -> tree -> Prop) n (cur : list (str * A)) env exts items :
   R2 P cur env -> R2 Q exts items -> has n cur = false -> has n exts = false -> fresh n (mkbody env items) = true.
 Proof.
   intros H1 H2 E1 E2. unfold fresh. cbn [b_env b_items].
@@ -99,11 +88,6 @@ Proof.
 Qed.
 
 (** * Item declarations *)
-Definition item_plain (l : loc) (d : Ast.item_type_decl) : dres loc :=
-  do (x, t1) <- plain_decl (l_cur l) (l_types l) d ;;
-  do cur1 <- register (l_cur l) (decl_name d) x ;;
-  if has (decl_name d) (l_exts l) then DPanic 8
-  else DOk (mkloc cur1 (l_uses l) (l_exts l ++ [(decl_name d, KType x)]) t1).
 Definition den_item_plain (b : body) (d : Ast.item_type_decl) : option body :=
   match den_plain (b_env b) d with
   | Some s => if fresh (dname d) b then Some (mkbody ((dname d, s) :: b_env b) (b_items b ++ [(dname d, sem_tree s)]))
@@ -140,28 +124,6 @@ Proof.
 Qed.
 
 (** * [use] *)
-Definition use_local (it : Ast.use_item) : str :=
-  match Ast.ui_as it with Some a => nm a | None => nm (Ast.ui_id it) end.
-
-Lemma use_items_cons iface l it rest :
-  use_items iface l (it :: rest) =
-  match get_if (l_types l) iface with
-  | None => DPanic 9
-  | Some x =>
-    match assoc (nm (Ast.ui_id it)) (i_exports x) with
-    | None => DErr EUndefinedInterfaceType
-    | Some (KType ((TResource _ | TValue _) as y)) =>
-      if has (use_local it) (l_exts l) then DErr EUseConflict else
-      do cur1 <- register (l_cur l) (use_local it) y ;;
-      use_items iface (mkloc cur1
-                         (imap_set (use_local it)
-                                   (iface, match Ast.ui_as it with Some _ => Some (nm (Ast.ui_id it)) | None => None end) (l_uses l))
-                         (imap_set (use_local it) (KType y) (l_exts l)) (l_types l)) rest
-    | Some _ => DErr ENotInterfaceValueType
-    end
-  end.
-Proof. reflexivity. Qed.
-
 Lemma use_items_sim iface x src : forall items l b l',
   get_if (l_types l) iface = Some x -> Rexts (l_types l) (i_exports x) src -> Rloc l b ->
   use_items iface l items = DOk l' ->
@@ -169,51 +131,60 @@ Lemma use_items_sim iface x src : forall items l b l',
 Proof.
   induction items as [|it rest IH]; intros l b l' Hg Hs Hl H.
   - cbn in H. injection H as <-. split; [reflexivity|]. exists b. auto.
-  - rewrite use_items_cons in H. rewrite Hg in H.
-    destruct (assoc (nm (Ast.ui_id it)) (i_exports x)) as [k|] eqn:Ea; [|discriminate].
-    destruct (R2_assoc_some _ _ _ _ _ Hs Ea) as [tr0 [As Hk]].
-    destruct Hl as [He Hx].
-    assert (Hgen : exists y s, k = KType y /\ used_sem tr0 = Some s /\ rel_item (l_types l) y s /\
-              (if has (use_local it) (l_exts l) then DErr EUseConflict else
-               do cur1 <- register (l_cur l) (use_local it) y ;;
-               use_items iface (mkloc cur1
-                         (imap_set (use_local it)
-                                   (iface, match Ast.ui_as it with Some _ => Some (nm (Ast.ui_id it)) | None => None end) (l_uses l))
-                         (imap_set (use_local it) (KType y) (l_exts l)) (l_types l)) rest) = DOk l').
-    { destruct k as [y| | | | |]; try discriminate. destruct y as [r| |v| | |]; try discriminate.
-      - destruct (uk_tres_inv _ _ _ Hk) as [n [-> Hn]]. exists (TResource r), (SRes n).
-        split; [reflexivity|]. split; [reflexivity|]. split; [now constructor | exact H].
-      - destruct (uk_tvalue_inv _ _ _ Hk) as [vt [-> Hv]]. exists (TValue v), (SVal vt).
-        split; [reflexivity|]. split; [reflexivity|]. split; [now constructor | exact H]. }
-    clear H. destruct Hgen as [y [s [-> [Us [Ry H]]]]].
-    destruct (has (use_local it) (l_exts l)) eqn:Eh2; [discriminate|]. dinv H as [cur1 [E1 H]].
-    apply register_ok in E1 as [Eh1 ->]. rewrite (imap_set_fresh _ _ _ Eh2) in H.
-    destruct b as [env items]. cbn [b_env b_items] in *.
-    edestruct (IH _ (mkbody ((use_local it, s) :: env) (items ++ [(use_local it, tr0)])) _ Hg Hs) as [Ht [b' [D1 R1]]]; [|exact H|].
+  - destruct (use_items_step _ _ _ _ _ _ Hg H) as [y [Ea [Hu [Eh2 [Eh1 H1]]]]].
+    destruct (R2_assoc_some _ _ _ _ _ Hs Ea) as [tr0 [As Hk]]. destruct Hl as [He Hx].
+    assert (Hsem : exists s, used_sem tr0 = Some s /\ rel_item (l_types l) y s).
+    { destruct Hu as [[r ->]|[v ->]].
+      - destruct (uk_tres_inv _ _ _ Hk) as [n [-> Hn]]. exists (SRes n). split; [reflexivity | now constructor].
+      - destruct (uk_tvalue_inv _ _ _ Hk) as [vt [-> Hv]]. exists (SVal vt). split; [reflexivity | now constructor]. }
+    destruct Hsem as [s [Us Ry]]. destruct b as [env items]. cbn [b_env b_items] in *.
+    assert (R0 : Rloc (mkloc ((use_local it, y) :: l_cur l) (imap_set (use_local it) (use_rec iface it) (l_uses l))
+                             (l_exts l ++ [(use_local it, KType y)]) (l_types l))
+                      (mkbody ((use_local it, s) :: env) (items ++ [(use_local it, tr0)]))).
     { split; cbn [l_types l_cur l_exts b_env b_items].
       - apply R2_cons; assumption.
       - apply R2_snoc; assumption. }
+    pose proof (fun hg hs => IH _ _ _ hg hs R0 H1) as IH1. destruct (IH1 Hg Hs) as [Ht [b' [D1 R1]]].
     cbn [l_types] in Ht. split; [exact Ht|]. exists b'. split; [|exact R1].
     cbn [den_use_items]. fold (use_local it). rewrite As, Us.
     rewrite (fresh_true _ _ _ _ _ _ _ He Hx Eh1 Eh2). exact D1.
 Qed.
 
-Definition use_src_sem (genv penv : env) (p : Ast.use_path) : option sem :=
+(** * Package paths *)
+Definition Rpk (t : types) (pkgs : pkgtab) (penv : penv_t) : Prop :=
+  pk_own pkgs = pe_own penv /\ Renv t (pk_ext pkgs) (pe_ext penv).
+Lemma Rpk_aext t t' pkgs penv : aext t t' -> Rpk t pkgs penv -> Rpk t' pkgs penv.
+Proof. intros Hx [H1 H2]. split; [exact H1 | eapply Renv_aext; eassumption]. Qed.
+
+(** a path that names an interface or a world (or a component) is a one-segment local path or an external one,
+    and denotes the related item *)
+Lemma path_item_sim t root pkgs genv penv pp k :
+  flat t -> Renv t root genv -> Rpk t pkgs penv -> path_item root pkgs t pp = DOk k -> leafk k = false ->
+  exists x s, k = KType x /\ den_path genv penv pp = Some s /\ rel_item t x s.
+Proof.
+  intros Hf Hg [Ho Hp] H Hl. unfold den_path. rewrite <- Ho.
+  destruct (path_item_cases _ _ _ _ _ Hf H) as [[Eo [Hn [x [Ea ->]]]]|[[Eo Hk]|[Eo [x [Ea ->]]]]].
+  - rewrite Eo, Hn. destruct (R2_assoc_some _ _ _ _ _ Hg Ea) as [s [As Hs]]. eauto.
+  - congruence.
+  - rewrite Eo. destruct (R2_assoc_some _ _ _ _ _ Hp Ea) as [s [As Hs]]. eauto.
+Qed.
+
+Definition use_src_sem (genv : env) (penv : penv_t) (p : Ast.use_path) : option sem :=
   match p with
-  | Ast.UPPackage pp => assoc (Ast.pp_string pp) penv
+  | Ast.UPPackage pp => den_path genv penv pp
   | Ast.UPIdent i => assoc (nm i) genv
   end.
 
 Lemma use_source_sim t root pkgs genv penv p iface :
-  Renv t root genv -> Renv t pkgs penv -> use_source root pkgs p = DOk iface ->
+  flat t -> Renv t root genv -> Rpk t pkgs penv -> use_source root pkgs t p = DOk iface ->
   exists x src, use_src_sem genv penv p = Some (SIface (i_id x) src) /\ get_if t iface = Some x /\ Rexts t (i_exports x) src.
 Proof.
-  intros Hg Hp H. destruct p as [pp|i]; cbn [use_source use_src_sem] in *.
-  - destruct (assoc (Ast.pp_string pp) pkgs) as [it|] eqn:Ea; [|discriminate].
-    destruct (R2_assoc_some _ _ _ _ _ Hp Ea) as [s [As Hs]].
-    destruct it; try discriminate. injection H as <-. inversion Hs as [| | |i0 x e G Hx|]; subst. eauto.
+  intros Hf Hg Hp H. destruct p as [pp|i]; cbn [use_source use_src_sem] in *.
+  - dinv H as [k [E1 H]]. destruct k as [[r|f|v|i|w|m]|f|i|w|m|v]; try discriminate. injection H as <-.
+    destruct (path_item_sim _ _ _ _ _ _ _ Hf Hg Hp E1 eq_refl) as [x [s [Ek [Ds Hs]]]]. injection Ek as <-.
+    inversion Hs as [| | |ii xx ee G Hx|]; subst. eauto.
   - dinv H as [it [E1 H]]. apply lookup_in_ok in E1. destruct (R2_assoc_some _ _ _ _ _ Hg E1) as [s [As Hs]].
-    destruct it; try discriminate. injection H as <-. inversion Hs as [| | |i0 x e G Hx|]; subst. eauto.
+    destruct it; try discriminate. injection H as <-. inversion Hs as [| | |ii xx ee G Hx|]; subst. eauto.
 Qed.
 
 Lemma den_use_eq genv penv b u :
@@ -224,25 +195,25 @@ Lemma den_use_eq genv penv b u :
 Proof. reflexivity. Qed.
 
 Lemma use_type_sim root pkgs genv penv l b u l' :
-  Renv (l_types l) root genv -> Renv (l_types l) pkgs penv -> Rloc l b ->
+  flat (l_types l) -> Renv (l_types l) root genv -> Rpk (l_types l) pkgs penv -> Rloc l b ->
   use_type root pkgs l u = DOk l' ->
   l_types l' = l_types l /\ exists b', den_use genv penv b u = Some b' /\ Rloc l' b'.
 Proof.
-  intros Hg Hp Hl H. unfold use_type in H. dinv H as [iface [E1 H]].
-  destruct (use_source_sim _ _ _ _ _ _ _ Hg Hp E1) as [x [src [Ds [G Hs]]]].
+  intros Hf Hg Hp Hl H. unfold use_type in H. dinv H as [iface [E1 H]].
+  destruct (use_source_sim _ _ _ _ _ _ _ Hf Hg Hp E1) as [x [src [Ds [G Hs]]]].
   rewrite den_use_eq, Ds. eapply use_items_sim; eassumption.
 Qed.
 
 (** * Interface bodies *)
 Lemma interface_items_sim root pkgs genv penv : forall items l b l',
-  Renv (l_types l) root genv -> Renv (l_types l) pkgs penv -> Rloc l b ->
+  flat (l_types l) -> Renv (l_types l) root genv -> Rpk (l_types l) pkgs penv -> Rloc l b ->
   interface_items root pkgs l items = DOk l' ->
   aext (l_types l) (l_types l') /\ exists b', den_iface_items genv penv b items = Some b' /\ Rloc l' b'.
 Proof.
-  induction items as [|it rest IH]; intros l b l' Hg Hp Hl H.
+  induction items as [|it rest IH]; intros l b l' Hf Hg Hp Hl H.
   - cbn in H. injection H as <-. split; [apply aext_refl|]. exists b. auto.
   - cbn [interface_items] in H. dinv H as [l1 [E1 H]].
-    assert (Hstep : aext (l_types l) (l_types l1) /\ exists b1,
+    assert (Hstep : frame (l_types l) (l_types l1) /\ exists b1,
               match it with
               | Ast.IIUse u => den_use genv penv b u
               | Ast.IIType d => den_decl b d
@@ -254,28 +225,28 @@ Proof.
                 end
               end = Some b1 /\ Rloc l1 b1).
     { destruct it as [u|d|docs i r].
-      - destruct (use_type_sim _ _ _ _ _ _ _ _ Hg Hp Hl E1) as [Ht R1]. rewrite Ht. split; [apply aext_refl | exact R1].
-      - eapply item_type_decl_sim; eassumption.
+      - destruct (use_type_sim _ _ _ _ _ _ _ _ Hf Hg Hp Hl E1) as [Ht R1]. rewrite Ht. split; [apply frame_refl | exact R1].
+      - split; [apply (item_type_decl_frame _ _ _ E1) | apply (item_type_decl_sim _ _ _ _ Hl E1)].
       - destruct Hl as [He Hx]. dinv E1 as [[f t1] [E0 E1]]. change (name_of i) with (nm i) in E1.
         destruct (has (nm i) (l_exts l)) eqn:Eh; [discriminate|]. injection E1 as <-. cbn [l_types].
-        destruct (func_type_ref_sim _ _ _ _ _ _ He E0) as [X1 [ft [D1 U1]]]. split; [exact X1|].
+        destruct (func_type_ref_sim _ _ _ _ _ _ He E0) as [X1 [ft [D1 U1]]]. split; [eapply func_type_ref_frame; exact E0|].
         rewrite D1, <- (R2_has _ _ _ (nm i) Hx), Eh. eexists. split; [reflexivity|].
         split; cbn [l_types l_cur l_exts b_env b_items].
         + eapply Renv_aext; eassumption.
         + apply R2_snoc; [eapply Rexts_aext; eassumption | now apply uk_func]. }
-    destruct Hstep as [X1 [b1 [D1 R1]]].
-    destruct (IH _ _ _ (Renv_aext _ _ _ _ X1 Hg) (Renv_aext _ _ _ _ X1 Hp) R1 H) as [X2 [b' [D2 R2']]].
+    destruct Hstep as [F1 [b1 [D1 R1]]]. pose proof (frame_aext _ _ F1) as X1.
+    destruct (IH _ _ _ (flat_frame _ _ F1 Hf) (Renv_aext _ _ _ _ X1 Hg) (Rpk_aext _ _ _ _ X1 Hp) R1 H) as [X2 [b' [D2 R2']]].
     split; [eapply aext_trans; eassumption|]. exists b'. split; [|exact R2'].
     cbn [den_iface_items]. rewrite D1. exact D2.
 Qed.
 
 Lemma interface_body_sim root pkgs genv penv t idn items i t' :
-  Renv t root genv -> Renv t pkgs penv -> interface_body root pkgs t idn items = DOk (i, t') ->
+  flat t -> Renv t root genv -> Rpk t pkgs penv -> interface_body root pkgs t idn items = DOk (i, t') ->
   aext t t' /\ exists e, den_iface genv penv items = Some e /\ rel_item t' (TInterface i) (SIface idn e) /\
                          exists x, get_if t' i = Some x /\ i_id x = idn /\ Rexts t' (i_exports x) e.
 Proof.
-  intros Hg Hp H. unfold interface_body in H. dinv H as [l [E1 H]].
-  destruct (interface_items_sim root pkgs genv penv items (mkloc [] [] [] t) (mkbody [] []) l Hg Hp) as [X1 [b' [D1 [_ Rx]]]];
+  intros Hf Hg Hp H. unfold interface_body in H. dinv H as [l [E1 H]].
+  destruct (interface_items_sim root pkgs genv penv items (mkloc [] [] [] t) (mkbody [] []) l Hf Hg Hp) as [X1 [b' [D1 [_ Rx]]]];
     [split; apply R2_nil | exact E1 |]. cbn [l_types] in X1.
   set (x := mkif idn (l_uses l) (l_exts l)) in *. unfold add_interface in H. injection H as <- <-.
   assert (X2 : aext (l_types l) (fst (add_interface (l_types l) x))) by apply aext_add_interface.
